@@ -44,6 +44,13 @@ def harnesses():
                     ["ToSql::to_sql(%s)" % tn.upper(), "FromSql::from_sql(%s)" % tn.upper()],
                     tier="quick" if (b == 16 and tn != "numeric") else "thorough", timeout=3600, domain="FULL value; the round trip is asserted whenever to_sql succeeds",
                     covers_required=["encodes"])
+    for (b, ndg, rt, tier, to) in [(16, 2, 0, "quick", 1200), (16, 2, 1, "thorough", 3600), (32, 3, 0, "thorough", 3600)]:
+        out.append(H("c16_pg_numeric_enc_%d%s" % (b, "_rt" if rt else ""), "C16", "c16::pg_numeric_enc::<%d,%d,%d>" % (b, ndg, rt),
+                     unwind=ndg + 4, tier=tier, timeout=to, inst="Uint<%d,1>" % b, stubs=[FMT], role="c16::pg_numeric_enc",
+                     domain="every value of the width, built from %d symbolic base-10000 digits (constructive oracle); "
+                            "one symbolic byte position" % ndg, free_bits=16 * ndg + 8,
+                     fns=["ToSql::to_sql(NUMERIC)", "to_base_be"] + (["FromSql::from_sql(NUMERIC)"] if rt else []),
+                     covers_required=["trailing-zero-digit", "zero"]))
     out.append(H("c16_primitive_types", "C16", "c16::primitive_types", unwind=40, tier="quick", timeout=1200,
                  inst="U128, U256, B128, B256 <-> primitive_types::{U128, U256, H128, H256}", stubs=[FMT],
                  domain="FULL values, one symbolic byte position", free_bits=128 + 256 + 5,
